@@ -32,6 +32,18 @@ struct Infos {
     /// (namespace, locale) -> table
     tables: BTreeMap<(Option<String>, String), Vec<String>>,
     files_paths: usize,
+    /// data keys / language identifiers of the driver `build_datagen_driver()` builds (read from its Debug text)
+    driver_keys: BTreeSet<String>,
+    driver_langids: BTreeSet<String>,
+    /// per additional option: (option, keys of `build_datagen_driver_with_options([option])`, keys the option stands for)
+    driver_with: Vec<(String, BTreeSet<String>, BTreeSet<String>)>,
+}
+
+fn debug_keys(debug: &str) -> BTreeSet<String> {
+    debug.split("DataKey{").skip(1).filter_map(|s| s.split_once('}')).map(|(k, _)| k.to_string()).collect()
+}
+fn debug_langids(debug: &str) -> BTreeSet<String> {
+    debug.split_once("langids: {").and_then(|(_, r)| r.split_once('}')).map(|(l, _)| l).unwrap_or_default().split(',').map(str::trim).filter(|s| !s.is_empty()).map(str::to_string).collect()
 }
 
 #[derive(Debug)]
@@ -89,8 +101,21 @@ fn observe_opts(dir: &Path, write_dir: Option<&Path>, fresh: bool) -> Out {
                 return Out::Err(format!("write_to_dir: {e}"));
             }
         }
-        let _ = infos.build_datagen_driver();
-        Out::Ok(Infos { icu_keys, locales, langids, namespaces, tables, files_paths: infos.files_paths().len() })
+        let mut driver_keys = BTreeSet::new();
+        let mut driver_langids = BTreeSet::new();
+        let mut driver_with = vec![];
+        if all_langids {
+            let d = format!("{:?}", infos.build_datagen_driver());
+            driver_keys = debug_keys(&d);
+            driver_langids = debug_langids(&d);
+            use leptos_i18n_build::Options as O;
+            for (name, o) in [("Plurals", O::Plurals), ("FormatDateTime", O::FormatDateTime), ("FormatList", O::FormatList), ("FormatNums", O::FormatNums), ("FormatCurrency", O::FormatCurrency)] {
+                let own: BTreeSet<String> = o.into_data_keys().iter().map(|k| k.path().get().to_string()).collect();
+                let with = debug_keys(&format!("{:?}", infos.build_datagen_driver_with_options([o])));
+                driver_with.push((name.to_string(), with, own));
+            }
+        }
+        Out::Ok(Infos { icu_keys, locales, langids, namespaces, tables, files_paths: infos.files_paths().len(), driver_keys, driver_langids, driver_with })
     }) {
         Ok(o) => o,
         Err(p) => Out::Panic(vmodel::par::take_panic_message(p)),
@@ -455,7 +480,23 @@ fn c20(tier: Tier) -> i32 {
                         );
                     }
                 }
+                // the driver a build script obtains: exactly the derived keys; an additional option only ADDS its keys
+                if infos.driver_keys != infos.icu_keys {
+                    rep.violation(format!("C20: build_datagen_driver() holds {:?}, get_icu_keys() says {:?} :: {}", infos.driver_keys, infos.icu_keys, desc()), json!({}));
+                }
+                for (name, with, own) in &infos.driver_with {
+                    let want: BTreeSet<String> = infos.icu_keys.union(own).cloned().collect();
+                    if *with != want {
+                        rep.violation(
+                            format!("C20: build_datagen_driver_with_options([{name}]) lacks {:?} and adds {:?} :: {}", want.difference(with).take(4).collect::<Vec<_>>(), with.difference(&want).take(4).collect::<Vec<_>>(), desc()),
+                            json!({"project": p.describe()}),
+                        );
+                    }
+                }
                 let want_locales: BTreeSet<String> = eff.iter().cloned().collect();
+                if infos.driver_langids != want_locales {
+                    rep.violation(format!("C20: the datagen driver is built for {:?}, configured {:?} :: {}", infos.driver_langids, eff, desc()), json!({}));
+                }
                 let got_locales: BTreeSet<String> = infos.locales.iter().cloned().collect();
                 if got_locales != want_locales || infos.locales.len() != eff.len() {
                     rep.violation(format!("C20: get_locales {:?}, configured {:?} :: {}", infos.locales, eff, desc()), json!({}));
@@ -479,7 +520,7 @@ fn c20(tier: Tier) -> i32 {
     rep.sample(json!({"uses": [["currency", "fk-target"]], "namespaced": true}));
     rep.sample(json!({"uses": [["plural", "surplus-only"], ["list", "range-branch"]], "expect": "list data only"}));
     let mut cov = serde_json::Map::new();
-    cov.insert("rule".into(), json!(format!("families {FAMILIES:?} x placements {PLACEMENTS:?} (none; default locale top level; non-default locale only; subkey depth 2 with the other locale null; inside a range branch; inside a plural form; only as the target of a foreign key from another key/namespace; second namespace only; only in a surplus key the default locale lacks = unreachable): every single placement x namespaced or not x 4 locale sets (default first / last / unlisted, script+region names), and pairs of (family, placement) (quick: a quarter, thorough: all); plus ONE variable of one key carrying formatters of several families: every permutation of every subset of <= 3 (thorough 4) of the 6 formatter families x 4 spreads over the locales (all in the default's string; first in the default, rest in the other locale; all in the other locale with the variable plain in the default; inside a subkey with the last only in the other locale) x namespaced or not; plus every way of spreading plural / number / currency / date / list over three namespaces a < b < c or leaving them out (4^5 projects; quick: at most one left out); oracle: characteristic data key of a family (plurals/cardinal@1, list/and@1, datetime/timesymbols@1, currency/essentials@1, decimal/symbols@1 for number-or-datetime) requested iff a reachable key uses the family in some locale (model: union over locales of the resolved trees of the default locale's keys); get_locales / get_locales_langids == configured set, get_namespaces == configured list, files_paths complete; distinct_nontrivial = distinct used-family sets")));
+    cov.insert("rule".into(), json!(format!("families {FAMILIES:?} x placements {PLACEMENTS:?} (none; default locale top level; non-default locale only; subkey depth 2 with the other locale null; inside a range branch; inside a plural form; only as the target of a foreign key from another key/namespace; second namespace only; only in a surplus key the default locale lacks = unreachable): every single placement x namespaced or not x 4 locale sets (default first / last / unlisted, script+region names), and pairs of (family, placement) (quick: a quarter, thorough: all); plus ONE variable of one key carrying formatters of several families: every permutation of every subset of <= 3 (thorough 4) of the 6 formatter families x 4 spreads over the locales (all in the default's string; first in the default, rest in the other locale; all in the other locale with the variable plain in the default; inside a subkey with the last only in the other locale) x namespaced or not; plus every way of spreading plural / number / currency / date / list over three namespaces a < b < c or leaving them out (4^5 projects; quick: at most one left out); oracle: characteristic data key of a family (plurals/cardinal@1, list/and@1, datetime/timesymbols@1, currency/essentials@1, decimal/symbols@1 for number-or-datetime) requested iff a reachable key uses the family in some locale (model: union over locales of the resolved trees of the default locale's keys); the driver build_datagen_driver() returns holds exactly the derived keys and the configured language identifiers, build_datagen_driver_with_options([o]) for each of the 5 options holds exactly the derived keys plus the option's own; get_locales / get_locales_langids == configured set, get_namespaces == configured list, files_paths complete; distinct_nontrivial = distinct used-family sets")));
     cov.insert("exhaustive".into(), json!(tier == Tier::Thorough));
     cov.insert("used_family_sets".into(), json!(*classes.lock().unwrap()));
     let _ = std::fs::remove_dir_all(&root);
